@@ -153,8 +153,25 @@ def mkrun(ir, route, sealed=False, budget_s=120, loop_bound=6, max_paths=6000, c
     else:
         hints += [nonnil_iface(r'^\*state\.Signer$', 'mainSigner')]
     H.add_hints(*hints)
+    # cloud-role issuer wiring (config.go: aws_identity_cert.New(Params{CertificateGenerator: state.generateRoleCert, ...}))
+    gen = f'(*{M}.RuntimeState).generateRoleCert'
+    H.stub('verif.failureWriter', lambda ex, s, a, ins: s.ev('fail', code=a[3], msg=a[2]) and None)
+    H.stub('verif.accountOK', lambda ex, s, a, ins: z3.Bool('accountAllowed'))
+    def caller_identity(ex, s, a, ins):
+        def ok(s2):
+            s2.ev('aws.identity'); return (ex.fresh(s2, ex.ir.under(ins['type'])[1]['elems'][0], 'arn'), nilerr())
+        return fork_results(ex, s, ins, [(None, lambda s2: (ex.zero(ins['type'])[0], mk_error(s2, SV('sts'), 'sts'))), (None, ok)])
+    H.stub(KM + '/lib/server/aws_identity_cert.getCallerIdentity', caller_identity)
+    H.stub_pat(r'^io/ioutil\.ReadAll$|^io\.ReadAll$', lambda ex, s, a, ins: fork_results(ex, s, ins, [(None, lambda s2: (NILSLICE(), mk_error(s2, SV('read'), 'read'))), (None, (BytesV(z3.String(lib.rk(s, 'req.body'))), nilerr()))]))
+    def pem_encode(ex, s, a, ins):
+        s.ev('resp.write', data=BytesV(z3.Function('pem.Encode', z3.StringSort(), z3.StringSort())(issue.pem_bytes(ex, s, a[1]))), via='pem.Encode', w=a[0]); return nilerr()
+    H.stub('encoding/pem.Encode', pem_encode)
+    H.add_hints(nonnil_iface(r'awsCertIssuer\.params\.Logger$'), nonnil_iface(r'^\*r\.Body$'),
+                pin(r'awsCertIssuer\.params\.FailureWriter$', FuncV('verif.failureWriter')), pin(r'awsCertIssuer\.params\.AccountIdValidator$', FuncV('verif.accountOK')),
+                pin(r'awsCertIssuer\.params\.CertificateGenerator$', lambda ex, st, tid, name: FuncV(gen + '$bound', [st.aux['stateptr']])))
     if extra: extra(H)
     st, state, w, r = H.mkstate()
+    st.aux['stateptr'] = state
     if route.get('path') and route['path'].endswith('/') and len(route['path']) > 1:
         st.pc.append(z3.PrefixOf(SV(route['path']), path))
     elif route.get('path'):
@@ -172,3 +189,13 @@ def run_route(ir, route, **kw):
     if args is None: return H, None, path
     paths = H.run(h, st, args)
     return H, paths, path
+
+
+def parallel(fn, items, nproc=None):
+    """run fn(item) -> picklable result for every item in forked worker processes (route sweeps are independent per route)"""
+    import multiprocessing as mp, os
+    nproc = nproc or max(2, min(14, (os.cpu_count() or 4) - 2))
+    if len(items) <= 1 or os.environ.get('SYMX_SERIAL'): return [fn(x) for x in items]
+    ctx = mp.get_context('fork')
+    with ctx.Pool(nproc) as pool:
+        return pool.map(fn, items, chunksize=1)
